@@ -312,8 +312,9 @@ fn run_e2e(
                 if let Some(last) = res.rounds.iter().rev().find(|r| r.out.is_ok()) {
                     check_body_inputs(rep, &bindings_of(&last.tir), &d, ctx);
                 }
-                let hint = format!("{}", if txspec.balanced { "balanced" } else { "free" });
-                check_balance(rep, &d, &served, &hint, ctx);
+                let extreme = args.values().any(|a| matches!(a, tx3_tir::reduce::ArgValue::Int(v) if v.unsigned_abs() > (1u128 << 125)));
+                let hint = if extreme { "int-arg-near-i128-limit" } else { "" };
+                check_balance(rep, &d, &served, hint, ctx);
                 check_echo(rep, program, txspec, args, &d, ctx);
             }
             let facts = check_fee(rep, pp, max_rounds, &res.rounds, c, &d, ctx);
